@@ -302,6 +302,8 @@ def gen_C05(seed):
         sc = 10.0 ** rsc_.choice([-25, -18, -18, -12, 12, 18])
         prob["y0"] = [float("%.6g" % (v * sc)) for v in prob["y0"]]
         s["atol"] = float("%.3g" % (s["atol"] * sc))
+        if sc < 1 and rsc_.random() < 0.4 and all(abs(v) > 0 for v in prob["y0"]):
+            s["atol"] = 0.0            # a purely relative tolerance (given as exactly zero) on a tiny state
         scn["extreme_scale"] = sc
     if prob["family"] == "linear" and r.random() < 0.5:
         n_ = int(round(len(prob["params"]["A"]) ** 0.5))
@@ -461,6 +463,10 @@ def gen_C20(seed):
     if not any(o["op"] == "integrate" for o in ops):
         ops.append({"op": "integrate"})
     scn["ops"] = ops
+    rfs_ = sub(seed, "foreign_system")
+    if rfs_.random() < 0.1 and not gen_is_slow(s["method"]):
+        # somewhere in the history a second system is built from the same right-hand side object, run for a while and perhaps reset
+        ops.insert(rfs_.randrange(0, len(ops) + 1), {"op": "foreign_system", "frac": round(rfs_.uniform(0.1, 0.5), 3), "reset_other": bool(rfs_.random() < 0.5)})
     rw = sub(seed, "prewrap")
     if rw.random() < 0.15 and s.get("jac", "none") != "attr":
         # the right-hand side reaches the system already wrapped (DiffRHS / rhs_prettifier) and already used
@@ -503,6 +509,18 @@ def gen_C02_base(seed):
     L = abs(s["tf"] - s["t0"])
     if scn["problem"]["family"] in ("linear",) and is_implicit(s["method"]) and r.random() < 0.3:
         pass
+    rdm_ = sub(seed, "decaymix")
+    if is_implicit(s["method"]) and dtype != "float32" and rdm_.random() < 0.15:
+        # the magnitude of the state collapses by many orders while a bounded nonlinear part keeps the Newton iteration busy: whatever
+        # tolerance the stage equations are solved to has to follow the state down (rtol-dominated tolerances)
+        lam = rdm_.uniform(9.0, 14.0) / L
+        scn["problem"] = {"family": "decaymix", "dtype": dtype, "shape": [3], "params": {"lam": float("%.4g" % (direction * lam)), "b": rdm_.choice([0.5, 2.0, 8.0])},
+                          "y0": [float("%.3g" % (10.0 ** rdm_.uniform(3, 5))), rdm_.choice([1.0, 1.5, -1.2]), rdm_.choice([0.0, 0.8])]}
+        scn["budget"] = 40000
+        s["rtol"] = float("%.2e" % 10 ** rdm_.uniform(-7, -4))
+        s["atol"] = float("%.2e" % (s["rtol"] * 1e-3))
+        s["dt"] = float("%.4g" % (L / rdm_.choice([40, 80])))
+        s["jac"] = rdm_.choice(["none", "attr"])
     scn["ops"] = [{"op": "integrate"}]
     if r.random() < 0.3:
         mid = round(s["t0"] + direction * L * r.uniform(0.2, 0.8), 6)
@@ -772,6 +790,11 @@ def gen_C13(seed):
                 if "plan" in op["callbacks"]:
                     op["plan"] = [float("%.4g" % (abs(s["dt"]) * r.uniform(0.4, 1.2))) for _ in range(r.choice([1, 2, 3]))]
             ops.append(op)
+    rdc_ = sub(seed, "del_constants")
+    if rdc_.random() < 0.1 and len(ops) >= 2:
+        # the constants are dropped (del system.constants) or replaced somewhere in the history: the caller's own dict must survive
+        ops.insert(rdc_.randrange(1, len(ops)), {"op": "del_constants"} if rdc_.random() < 0.6 else
+                   {"op": "set", "attr": "constants", "value": {"k": rdc_.choice([1.0, 1.25, 0.75])}})
     if not have_reset:
         ops.append({"op": "reset"})
         ops.append({"op": "integrate"})
@@ -887,6 +910,16 @@ def gen_EV(seed, profile):
     if profile == "C09" and not any(e["terminal"] for e in evs):
         evs[r.randrange(len(evs))]["terminal"] = True
     rt_ = sub(seed, "terminal")
+    if profile == "C09" and rt_.random() < 0.2:
+        # the surface of a terminal event is also watched by a non-terminal function that is listed BEFORE it: the two crossings coincide
+        # in time, the non-terminal one is handled first, and the terminal one still has to be reported and to stop the run
+        jt_ = [j for j, e in enumerate(evs) if e["terminal"]][0]
+        twin_ = dict(evs[jt_])
+        twin_["terminal"] = False
+        twin_["direction"] = 0
+        twin_["scale"] = rt_.choice([1.0, 1.0, 3.0])
+        evs.insert(jt_, twin_)
+        nev = len(evs)
     if profile == "C08" and len(evs) >= 2 and rt_.random() < 0.2:
         # one terminal event that is NOT the last entry of the list: the step that is cut at its root still has to report the
         # crossings of the functions listed after it
@@ -1067,15 +1100,27 @@ def gen_C04(seed):
             op["t"] = round(cur + (s["tf"] - cur) * r.uniform(0.3, 0.8), 6)
             cur = op["t"]
         ops.append(op)
+    rr_ = sub(seed, "reset_history")
+    if rr_.random() < 0.18:
+        # a first leg (sometimes shorter than one step, sometimes run with an adaptive method that moves dt around), then reset(), then
+        # the run proper: after reset() the step in force is the one the user asked for
+        first = {"op": "integrate", "t": round(s["t0"] + (s["tf"] - s["t0"]) * (rr_.uniform(0.001, 0.02) if rr_.random() < 0.5 else rr_.uniform(0.3, 0.9)), 6)}
+        pre = [first, {"op": "reset"}]
+        if not is_adaptive(s["method"]) and not s["method"].startswith("Rich:") and rr_.random() < 0.5 and prob["dtype"] == "float64":
+            pre = [{"op": "set", "attr": "method", "value": "RK45CKSolver"}, {"op": "set", "attr": "rtol", "value": 1e-6}, first, {"op": "reset"},
+                   {"op": "set", "attr": "method", "value": s["method"]}]
+        ops = pre + ops
+        scn["reset_history"] = True
     scn["ops"] = ops
     scn["knobs"].pop("alloc_cap", None)
     rf = sub(seed, "faults")
     if is_implicit(s["method"]) and rf.random() < 0.5:
         for _ in range(rf.choice([1, 2])):
-            scn["faults"].append({"op": rf.randrange(len(ops)), "seam": "solver", "at": rf.randrange(1, 10), "kind": rf.choice(["nonconv", "nonconv", "linalg"])})
+            iops_ = [q for q, o_ in enumerate(ops) if o_["op"] == "integrate"]
+            scn["faults"].append({"op": rf.choice(iops_), "seam": "solver", "at": rf.randrange(1, 10), "kind": rf.choice(["nonconv", "nonconv", "linalg"])})
         if rf.random() < 0.4:
             scn["knobs"]["newton_cap"] = rf.choice([1, 2, 4])
-    scn["twin"] = r.choice(["shift", "shift", "reflect", "none"])
+    scn["twin"] = r.choice(["shift", "shift", "reflect", "none"]) if not scn.get("reset_history") else "none"
     scn["shift"] = r.choice([1, -1]) * 2.0 ** r.randint(-2, 7)
     rs_ = sub(seed, "farshift")
     if is_adaptive(s["method"]) and scn["problem"]["dtype"] != "float32" and rs_.random() < 0.4:
